@@ -2224,7 +2224,13 @@ impl<'input, T: Input> Scanner<'input, T> {
                 break;
             }
 
-            if self.flow_level > 0 && self.input.peek() == '-' && is_flow(self.input.peek_nth(1)) {
+            // This restriction only concerns the first character of the scalar. Further down, a
+            // `-` is an ordinary character (`[a -, b]`).
+            if self.flow_level > 0
+                && string.is_empty()
+                && self.input.peek() == '-'
+                && is_flow(self.input.peek_nth(1))
+            {
                 return Err(ScanError::new_str(
                     self.mark,
                     "plain scalar cannot start with '-' followed by ,[]{}",
